@@ -174,7 +174,12 @@ def stepNS (st : NS) (op impl : String) : NS × StepOut :=
     -- must equal its answer without it.
     if what == "begin" then (st, { model := "ok" }) else
     let orc := match impl.splitOn " | " with
-      | [a, b] => if a == b then [] else ["unauthenticated-session-influenced-" ++ what]
+      | [a, b] =>
+        if a == b then []
+        -- `check_session` (theorem `unauthenticated_can_only_let_continue`): a spoofer sharing
+        -- (name, nonce) may turn the reply into `noOther`, never into one that stops the asker
+        else if what == "checks" && a == "noOther" then []
+        else ["unauthenticated-session-influenced-" ++ what]
       | _ => ["unparsable"]
     (st, { model := impl, oracle := orc, nontrivial := what == "commit" })
   | ["ns", this] => ({ thisName := this, sessions := [] }, { model := "ok" })
